@@ -544,3 +544,23 @@ def c13(tier, rep):
     rep.set("legality_inputs", d["inputs"] if d else 0)
     rep.set("rule", "E2: depth profiles n<=3,d<=2 x 12 macros x {map, and_then | then} x handler written first / in the middle / last x EVERY failure subset (try) : handler event count, argument order, result wrapping vs the reference (handler called exactly once iff every branch succeeded; then: always); async then/and_then handlers return futures (awaited; the gated variants run under all wake-up orders in C09's set); E1: 8 configs x 3 handler kinds x 1-3 branches x every position x optional second handler at every position: rejection iff wrong kind or second handler")
     sample_family(rep, progs, fr)
+
+
+@check("C16", "exploration")
+def c16(tier, rep):
+    from . import e1, fam_options as fo, fam_profiles as fp
+
+    progs = fo.programs(tier)
+    fr = e2.run_family("c16joiners", progs, extra_header=fp.HEADER + fo.PRE)
+    judge_family(rep, fr)
+    tp = fo.transpose_programs()
+    fr2 = e2.run_family("c16transpose", tp, extra_header=fp.HEADER + fo.TRANSPOSE_PRE)
+    judge_family(rep, fr2)
+    f3 = fo.fut03_programs(tier)
+    fr3 = e2.run_family("c16fut03", f3, extra_header=fo.FUT03_HEADER, deps_override=fo.FUT03_DEPS)
+    judge_family(rep, fr3)
+    exe = e1.build()
+    d = e1_mode(rep, exe, ["opts", "options"], "C16", "option parsing")
+    rep.set("option_selections", d["selections"] if d else 0)
+    rep.set("rule", "E1: all 65 ordered duplicate-free selections of the four options and every selection with one duplicate inserted at every position x 2 value sets x 6 configs: accepted iff duplicate-free, parsed fields equal the written ones, futures_crate_path rejected for sync macros and used for every futures item; E2: depth profiles n<=3,d<=3 x {variadic macro joiner, fixed-arity fn joiner, lazy joiner that invokes its closures in REVERSE order, async joiners} in sync/spawn/async kinds with every failure subset: exactly one joiner event per step with > 1 active branches, arity = active count, result positions, lazy order; transpose_results(false) with a try-collecting joiner and injected joiner failures per step; futures_crate_path(::fut03) in a crate that has no dependency named futures")
+    sample_family(rep, progs, fr)
